@@ -21,10 +21,12 @@ Definition C01_preserves_full : Prop :=
     conf_op fuel S frs root sels j = true ->
     covers fuel cls (AClass (pascal_s name)) j = true.
 
-(* ---- proved (object-level refinement, sub-language op_ok): selection sets of fields only (aliases,
-        @skip/@include flags, __typename), leaf fields of scalar / enum type and composite fields of OBJECT
-        type nested to any depth, any list / non-null wrappers; pairwise distinct response keys per
-        selection set; no Python field name (when it differs from its response key) equal to another
+(* ---- proved (object-level refinement, sub-language op_ok): selection sets of fields (aliases,
+        @skip/@include flags, __typename), unconditional inline fragments and unpacked fragment spreads
+        whose type condition is the object type itself or one of its interfaces / unions (exactly those
+        that resolve and collect flatten alike: flatten, C01_flattenings_agree), leaf fields of scalar /
+        enum type and composite fields of OBJECT type nested to any depth, any list / non-null wrappers;
+        pairwise distinct response keys per flattened selection set; no Python field name (when it differs from its response key) equal to another
         response key of the same set.  Ghost-output guards: no class skipped by the _public_names check
         (third component of op_parse = false), no generated class called BaseModel.
         The classes are all_classes' (operation module + fragments module).
@@ -34,7 +36,7 @@ Theorem C01_accepts_partial :
     root_type_name S kind = Ok root ->
     op_parse fuel C S frs kind name [] sels = Ok (own, pub', false) ->
     all_classes fuel C S frs (DOp kind name [] sels) = Ok cls ->
-    op_ok g cov C S root sels = true -> no_basemodel own = true ->
+    op_ok g cov C S frs root sels = true -> no_basemodel own = true ->
     conf_op fc S frs root sels j = true ->
     n >= fuel + 1 ->
     accepts n cls (schema_enums S) (AClass (pascal_s name)) j = true.
@@ -48,7 +50,7 @@ Theorem C01_preserves_partial :
     root_type_name S kind = Ok root ->
     op_parse fuel C S frs kind name [] sels = Ok (own, pub', false) ->
     all_classes fuel C S frs (DOp kind name [] sels) = Ok cls ->
-    op_ok g true C S root sels = true -> no_basemodel own = true ->
+    op_ok g true C S frs root sels = true -> no_basemodel own = true ->
     conf_op fc S frs root sels j = true -> jwf j = true ->
     n >= fuel + 1 ->
     covers n cls (AClass (pascal_s name)) j = true.
@@ -60,7 +62,7 @@ Print Assumptions C01_preserves_partial.
 Theorem C01_object_accepts :
   forall C S frs fuel g cov nested pub cn tn sels tv out pub' cs fc kv n,
     parse_type_def fuel C S frs pub cn tn sels false [] tv = Ok (out, pub', false) ->
-    sels_ok g cov C S nested tn sels = true -> tv_ok nested tn tv -> table_ok cs out ->
+    sels_ok g cov C S frs nested tn sels = true -> tv_ok nested tn tv -> table_ok cs out ->
     conf_obj_with (conf_val fc S frs) S tn (collect_scopes fc S frs tn [(false, sels)]) kv = true ->
     n >= fuel + 1 ->
     accepts n cs (schema_enums S) (AClass cn) (JObj kv) = true.
@@ -70,7 +72,7 @@ Print Assumptions C01_object_accepts.
 Theorem C01_object_covers :
   forall C S frs fuel g nested pub cn tn sels tv out pub' cs fc kv n,
     parse_type_def fuel C S frs pub cn tn sels false [] tv = Ok (out, pub', false) ->
-    sels_ok g true C S nested tn sels = true -> tv_ok nested tn tv -> table_ok cs out ->
+    sels_ok g true C S frs nested tn sels = true -> tv_ok nested tn tv -> table_ok cs out ->
     conf_obj_with (conf_val fc S frs) S tn (collect_scopes fc S frs tn [(false, sels)]) kv = true ->
     jwf (JObj kv) = true ->
     n >= fuel + 1 ->
@@ -89,6 +91,17 @@ Proof.
   simpl in H1. split; [exact H1 | rewrite <- H1; apply H2; constructor].
 Qed.
 Print Assumptions C01_class_names_distinct.
+
+(* the generator's _resolve_selection_set (against root r) and the executor's CollectFields (runtime
+   object type rt) flatten a selection set accepted by [flatten] to the same field list, with no mixin *)
+Theorem C01_flattenings_agree :
+  forall S frs rt g r sels fns,
+    flatten g S frs rt r sels = Some fns ->
+    forall f, f >= g ->
+      resolve f S frs sels r = Ok (fns, []) /\
+      (forall under, collect f S frs rt under sels = Some (map (node_of_fnode under) fns)).
+Proof. exact flatten_both_ex. Qed.
+Print Assumptions C01_flattenings_agree.
 
 (* ---- proved: every nullability / list wrapper, at any depth ---- *)
 Theorem C01_wrappers_accept :
@@ -187,11 +200,13 @@ Example C01_full_hypotheses_satisfiable :
 Proof. eexists. split; [vm_compute; reflexivity|]. vm_compute. repeat split. Qed.
 
 (* ---- non-vacuity of the partial theorems: nested (two levels of objects), aliased, list-wrapped,
-        conditional fields, enum, __typename literal ---- *)
+        conditional fields, enum, __typename literal, a spread of a fragment on an interface and nested
+        inline fragments (flattened) ---- *)
 Definition SX : schema :=
   {| s_types := [("Query", DObject [] [("user", TNamed "User");
                                        ("users", TNonNull (TList (TNonNull (TNamed "User"))))]);
-                 ("User", DObject [] [("id", TNonNull (TNamed "ID")); ("fullName", TNamed "String");
+                 ("Node", DInterface [] [("id", TNonNull (TNamed "ID"))]);
+                 ("User", DObject ["Node"] [("id", TNonNull (TNamed "ID")); ("fullName", TNamed "String");
                                       ("role", TNonNull (TNamed "Role")); ("address", TNamed "Address");
                                       ("tags", TList (TNamed "String"))]);
                  ("Address", DObject [] [("city", TNonNull (TNamed "String")); ("zip", TNamed "Int")]);
@@ -199,12 +214,17 @@ Definition SX : schema :=
      s_query := Some "Query"; s_mutation := None; s_subscription := None |}.
 Definition selsX : list sel :=
   [SField (Some "people") "users" false []
-     (Some [SField None "__typename" false [] None; SField None "id" false [] None;
-            SField (Some "name") "fullName" true [] None; SField None "role" false [] None;
+     (Some [SField None "__typename" false [] None; SSpread "NodeBits" false;
+            SInline (Some "User") false
+              [SField (Some "name") "fullName" true [] None;
+               SInline (Some "Node") false [SField None "role" false [] None]];
             SField (Some "homeAddress") "address" false []
               (Some [SField None "city" false [] None; SField None "zip" true [] None]);
             SField None "tags" false [] None]);
    SField None "user" true [] (Some [SField None "id" false [] None])].
+Definition frsX : list fragdef :=
+  [{| fr_name := "NodeBits"; fr_on := "Node"; fr_mixins := [];
+      fr_sel := [SField None "id" false [] None] |}].
 Definition jX : json :=
   JObj [("people", JArr [JObj [("__typename", JStr "User"); ("id", JStr "1"); ("role", JStr "ADMIN");
                                ("homeAddress", JObj [("city", JStr "X")]);
@@ -215,10 +235,10 @@ Definition jX : json :=
 Example C01_partial_hypotheses_satisfiable :
   exists own pub' cls,
     root_type_name SX "query" = Ok "Query" /\
-    op_parse 10 C0 SX [] "query" "GetPeople" [] selsX = Ok (own, pub', false) /\
-    all_classes 10 C0 SX [] (DOp "query" "GetPeople" [] selsX) = Ok cls /\
-    op_ok 10 true C0 SX "Query" selsX = true /\ no_basemodel own = true /\
-    conf_op 10 SX [] "Query" selsX jX = true /\ jwf jX = true /\
+    op_parse 10 C0 SX frsX "query" "GetPeople" [] selsX = Ok (own, pub', false) /\
+    all_classes 10 C0 SX frsX (DOp "query" "GetPeople" [] selsX) = Ok cls /\
+    op_ok 10 true C0 SX frsX "Query" selsX = true /\ no_basemodel own = true /\
+    conf_op 10 SX frsX "Query" selsX jX = true /\ jwf jX = true /\
     List.length own = 4 /\
     accepts 11 cls (schema_enums SX) (AClass (pascal_s "GetPeople")) jX = true /\
     covers 11 cls (AClass (pascal_s "GetPeople")) jX = true.
